@@ -14,10 +14,15 @@ def main(tier, seed):
     # a process that finishes by itself while the other one is still being launched, default retention, every schedule
     for a, b in (("auto", "one_irq"), ("auto", "seq2")):
         jobs.append(("props.multi", "isolation", ("C13", a, b, 1, "explore", 120 if tier == "quick" else 3000, False)))
+    # two processes of the same model with different inputs, both evicted, while a third one finishes: Cache::restore refills both rows in one batch
+    for pol in ("fifo", "lifo"):
+        jobs.append(("props.multi", "restore_batch", ("C13", pol, 60 if tier == "quick" else 600)))
     c.run_jobs(jobs)
     return c.finish(
         rule="self-composition inside one path: each process alone (reference) and both together in one engine with a cache of capacity 1 / default, any live process evicted under "
-             "capacity pressure (decision), answers interleaved (decision); per-process summaries must equal the solo summaries; a second start with a live pid must be refused",
+             "capacity pressure (decision), answers interleaved (decision); per-process summaries must equal the solo summaries; a second start with a live pid must be refused; "
+             "restore-batch: two processes of one model (different start inputs) are dropped from the cache (load from elsewhere), a third process finishes and the real Cache::restore / Store::load "
+             "refill both rows in one batch; both then go on as they do alone",
         assumptions=ASSUME + ["moka's eviction policy is over-approximated: under capacity pressure any cached process may be the victim, at quiescent points only",
                              "the number of OS worker threads is not modelled; 2 processes (not 64)"],
         bounds=dict(pairs=PAIRS, capacities=[1, "default"], processes=2))
